@@ -280,6 +280,71 @@ def _unroll(unit, item, spec, body, applied):
             return body
 
 
+def _rewrite_continue(body, applied):
+    """R23: `if C { continue; } REST`  (a direct statement of a loop body)  ->  `if C { } else { REST }`.
+    Verus' for-loops do not support `continue`; the two forms are equivalent in Rust."""
+    for _ in range(8):
+        sb = Src("<b>", body)
+        m = None
+        for mm in re.finditer(r'\bcontinue\s*;', body):
+            if sb.mask[mm.start()]:
+                m = mm
+                break
+        if not m:
+            return body
+        # enclosing block must be `{ continue; }` of an `if` without else
+        k = m.start() - 1
+        while k >= 0 and body[k].isspace():
+            k -= 1
+        if body[k] != '{':
+            raise Unsupported("`continue` not in the form `if C { continue; }`")
+        blk_open = k
+        blk_close = sb.match_close(blk_open)
+        if body[m.end():blk_close].strip():
+            raise Unsupported("`continue` is not the only statement of its block")
+        # find the `if` that owns this block: scan back to the keyword at the same depth
+        j = blk_open - 1
+        depth = 0
+        if_pos = None
+        while j >= 0:
+            if sb.mask[j]:
+                c = body[j]
+                if c in ')]}':
+                    depth += 1
+                elif c in '([{':
+                    if depth == 0:
+                        break
+                    depth -= 1
+                elif depth == 0 and body.startswith('if', j) and not rsscan._identch(body, j - 1) and not rsscan._identch(body, j + 2):
+                    if_pos = j
+                    break
+                elif depth == 0 and c == ';':
+                    break
+            j -= 1
+        if if_pos is None:
+            raise Unsupported("`continue` without a directly enclosing `if`")
+        after = blk_close + 1
+        rest_m = re.match(r'\s*else\b', body[after:])
+        if rest_m:
+            raise Unsupported("`if C { continue; } else ..` not handled")
+        # the enclosing loop body: the innermost '{' that contains if_pos
+        st = []
+        encl = None
+        for idx in range(if_pos):
+            if sb.mask[idx]:
+                if body[idx] in '([{':
+                    st.append(idx)
+                elif body[idx] in ')]}':
+                    st.pop()
+        if not st or body[st[-1]] != '{':
+            raise Unsupported("`continue`: enclosing block not found")
+        encl_close = sb.match_close(st[-1])
+        rest = body[after:encl_close]
+        body = body[:blk_open] + "{ } else {" + rest + "}\n" + body[encl_close:]
+        applied.append(("R23", "if C { continue; } REST", "if C { } else { REST }"))
+    return body
+
+
 def _tail_start(body):
     """offset in `body` ('{...}') where the tail expression starts (after the last top-level statement)"""
     s = Src("<b>", body)
@@ -402,6 +467,7 @@ def build_fn(unit, item, imp, fnitem, spec: Fn, cover=False):
             raise Unsupported(f"{spec.name}: R21 cannot parse body: {e}")
         if n21:
             applied.append(("R21", "a + b / a - b / a * b / a op= b", f"core::ops::<Trait>::<method>(a, b) x{n21}"))
+    body = _rewrite_continue(body, applied)
     # R18: unroll constant-bound `for` loops (no invariant needed, so no reference to the body's locals)
     if spec.unroll:
         body = _unroll(unit, item, spec, body, applied)
